@@ -5,6 +5,7 @@
 package media
 
 import (
+	"github.com/cnotch/ipchub/utils/simhook"
 	"io"
 	"runtime/debug"
 	"time"
@@ -86,6 +87,7 @@ func (c *consumption) consume() {
 		}
 
 		// 停止消费
+		simhook.Y("consume.exit")
 		c.stream.StopConsume(c.cid)
 		c.consumer.Close()
 
@@ -94,8 +96,11 @@ func (c *consumption) consume() {
 		c.stream = nil
 	}()
 
+	simhook.Y("consume.start")
 	for !c.closed {
+		simhook.Y("consume.beforePop")
 		p := c.recvQueue.Pop()
+		simhook.Y("consume.afterPop")
 		if p == nil {
 			if !c.closed {
 				c.logger.Warn("receive nil pack")
